@@ -9,7 +9,8 @@ harness/c/decoder_drv.c with the `data` option) is run on
   (a) real third-party streams: test/compressed/*.bin and member payloads cut out of test/archives
       by the independent walker (corpus.sample_payloads, plus one gpl-2 sized member per method where
       there is one), with several declared lengths and read schedules;
-      quick: the first 1500 bytes of output, thorough: the whole stream and 1000 bytes beyond it;
+      quick: the first 1500 bytes of output, thorough: the whole stream and 1000 bytes beyond it, plus
+      the first 300000 bytes of the corpus' *long* members (many blocks, wrapped windows);
   (b) damaged streams: truncated prefixes, bit flips (concentrated on the table area), random bytes,
       constant bytes, the empty stream; thorough additionally a long random -lh1- stream that makes
       the adaptive tree rebuild twice (reconst).
@@ -78,6 +79,22 @@ def valid_streams():
         if (s[0], m) not in have and pay[m][2] < 5000:
             out.append(s)
     return out
+
+
+LONG_OUT = 300000
+
+
+def long_streams():
+    """thorough only: the *long* members of the corpus (1.2 MB of text each; many blocks, every window
+    up to 128 KiB wraps) - the first LONG_OUT bytes of output"""
+    best = {}
+    for f, mem, p in corpus.all_members():
+        m = mem["method"]
+        if m == "-lh7-" and "lhark" in f:
+            m = "-lk7-"
+        if m in corpus.METHODS and mem["length"] >= LONG_OUT and m not in best:
+            best[m] = (os.path.relpath(f, V.REPO) + ":" + mem["name"].decode("latin1"), m, p, mem["length"])
+    return [best[m] for m in sorted(best)]
 
 
 def valid_jobs(tier, streams, sc):
@@ -361,6 +378,13 @@ def main(argv):
     if "valid" in kinds:
         vj = valid_jobs(tier, streams, sc)
         todo += [("valid", s) for s in shards_of(vj, 1 if tier == "quick" else 2)]
+        if tier == "thorough":
+            for i, (tag, m, p, length) in enumerate(long_streams()):
+                if only is not None and m not in only:
+                    continue
+                path = os.path.join(sc, "long%02d_%s.bin" % (i, m.strip("-")))
+                open(path, "wb").write(p)
+                todo.append(("valid", ("%s_long" % m.strip("-"), m, [((LONG_OUT, m, path, "R%d,L,C" % (LONG_OUT + 5)), tag + " (first %d bytes)" % LONG_OUT)])))
     if "invalid" in kinds:
         ij = invalid_jobs(tier, streams, sc, seed)
         todo += [("invalid", s) for s in shards_of(ij, 1 if tier == "quick" else 4)]
@@ -374,10 +398,9 @@ def main(argv):
     per = {}
     fails = []
     for r in results:
-        p = per.setdefault(r["method"], {"valid": [0, 0, 0.0, 0], "invalid": [0, 0, 0.0, 0], "runs": 0})
+        p = per.setdefault(r["method"], {"valid": [0, 0, 0.0, 0, 0], "invalid": [0, 0, 0.0, 0, 0]})
         k = p[r["kind"]]
-        k[0] += len(r["jobs"]); k[1] += r["bytes"]; k[2] += r["wall"]; k[3] += r["calls"]
-        p["runs"] += 1
+        k[0] += len(r["jobs"]); k[1] += r["bytes"]; k[2] += r["wall"]; k[3] += r["calls"]; k[4] += 1
         if not r["ok"]:
             fails.append(r)
     print("%-6s | %5s %9s %8s %7s %8s | %5s %9s %8s %7s" % ("method", "exec", "bytes", "calls", "tlc s", "ms/byte", "exec", "bytes", "calls", "tlc s"))
@@ -387,7 +410,7 @@ def main(argv):
             continue
         v, i = per[m]["valid"], per[m]["invalid"]
         # JVM start + parsing the modules is about 1.3 s per shard and not the codec's
-        msb = ("%8.3f" % (1000.0 * max(v[2] - 1.3 * max(1, per[m]["runs"] // 2), 0.0) / v[1])) if v[1] else "       -"
+        msb = ("%8.3f" % (1000.0 * max(v[2] - 1.3 * v[4], 0.0) / v[1])) if v[1] else "       -"
         print("%-6s | %5d %9d %8d %7.1f %s | %5d %9d %8d %7.1f" % (m, v[0], v[1], v[3], v[2], msb, i[0], i[1], i[3], i[2]))
     print("wall %.1f s" % (time.time() - t0))
     if fails:
